@@ -4,6 +4,7 @@
 EXTENDS Digests, TLC, Json, IOUtils, SequencesExt
 Cases == { [d |-> d, pos |-> p] : d \in Rows, p \in {"first", "middle", "last", "short", "long", "second"} }
 Useful(c) == c.pos = "first" \/ c.d.md5 = "mismatch" \/ c.d.sha1 = "mismatch" \/ c.d.sha256 = "mismatch" \/ c.d.payload = "mismatch"
+             \/ (c.pos = "second" /\ AlgoBad(c.d))       \* the algorithm entry then holds two items, the first of which counts
 VARIABLE done
 Init == done = FALSE
 Next == ~done /\ done' = TRUE /\ ndJsonSerialize(IOEnv.OUT, SetToSeq({c \in Cases : Useful(c)}))
